@@ -9,7 +9,7 @@ Voc == <<
   IdLine("  - ", " ", "5"), IdLine("    ", "   ", "abc-7"), IdLine("- ", " ", "1"), CR(IdLine("  - ", "\t", "2  ")),
   TitleLine("    ", " ", "932100-7"), TitleLine("  - ", "  ", "\"legacy title\""), CR(TitleLine("    ", " ", "932100-1")),
   OtherLine("---"), OtherLine("meta:"), OtherLine("  desc: plain text"), OtherLine("      uri: \"/get?x=1\"   "),
-  OtherLine("  # a comment"), CR(OtherLine("      data: a:b")), OtherLine("tests:"),
+  OtherLine("  # a comment"), OtherLine("      uri: \"/?q=%20a%%s%d\""), CR(OtherLine("      data: a:b")), OtherLine("tests:"),
   BlankLine(""), BlankLine("   "), BlankLine("\t"), CR(BlankLine(""))
 >>
 File1(fnl) == TFile([i \in 1..Len(lines) |-> Voc[lines[i]]], fnl)
